@@ -167,7 +167,18 @@ META["C13"] = dict(
           "correspondence only. HTTP 200 with Stats.MissingPartitions in the body on a cluster leader counts as told (statistics clause of the property)."),
     technique="Coq proof (scan under a step-counted deadline) + exhaustive fault lattice on the real embedded, cluster and web APIs")
 
+META[] = dict(
+    text=("Theorems (Props/C20.v): in the wire model of the expression codec decode(encode e) = e for every expression tree, so the decoded "
+          "expression has the same text, width and the same Update/Merge/Get behaviour on all inputs; on the codec table translated from "
+          "expr/*.go on this run every registered extension type restores every behaviour-relevant field (hand-written decoders rebuild the "
+          "function fields from names). Correspondence: expressions and messages through the real msgpack codec, with the decoded objects "
+          "run against the model of the originals; queries and inserts through the real gRPC client/server vs the reference."),
+    design_ref="DESIGN.md section 4 / C20",
+    note=("Modelled: zenodb's use of the codec (which fields travel, how decoders rebuild objects). Not modelled: msgpack/gRPC/snappy themselves, "
+          "PERCENTILE states, a follower answering a leader over gRPC (in-process wiring is used for cluster checks)."),
+    technique="Coq proof (codec round-trip by structural induction; finite codec table by vm_compute) + decoded-object differential through the real codec and RPC stack")
+
 NOT_APPLICABLE = [
     {"property_id": p, "reason": _PENDING}
-    for p in ["C02", "C11", "C12",  "C20"]
+    for p in ["C02", "C11", "C12",  ]
 ]
